@@ -147,7 +147,18 @@ func checkMetrics(c *metricsCase) string {
 
 type cmapCase struct {
 	Data []byte `json:"data"`
+	// Between: other inputs read between the repetitions
+	Between []string `json:"between,omitempty"`
 }
+
+// CMap files that define into whatever dictionary is current (no `12 dict
+// begin` of their own, operators of the procedure set redefined) and
+// programs that store into shared-looking objects
+var cmapPerturbations = append([]string{
+	"%!PS-Adobe-3.0 Resource-CMap\n/CIDInit /ProcSet findresource begin\nbegincmap\n/CMapName /Leaky def /CMapType 1 def /WMode 1 def /Extra (x) def\n1 begincodespacerange <00> <ff> endcodespacerange\nendcmap\nCMapName currentdict /CMap defineresource pop\nend\n",
+	"%!PS-Adobe-3.0 Resource-CMap\n/CIDInit /ProcSet findresource begin\n/begincidchar {pop} def /endcidchar {} def /usecmap {pop} def\n12 dict begin begincmap /CMapName /Redef def endcmap CMapName currentdict /CMap defineresource pop end end\n",
+	"%!PS-Adobe-3.0 Resource-CMap\n/CIDInit /ProcSet findresource begin 12 dict begin begincmap /CMapName /Half def 3 begincidrange <00> <01> 1\n",
+}, perturbations...)
 
 func cmapDigest(d postscript.Dict) string {
 	if d == nil {
@@ -174,6 +185,11 @@ func checkCMap(c *cmapCase) string {
 	d1, err1 := postscript.ReadCMap(bytes.NewReader(c.Data))
 	first := cmapDigest(d1)
 	for r := 1; r < repeats; r++ {
+		if len(c.Between) > 0 {
+			p := c.Between[(r-1)%len(c.Between)]
+			postscript.ReadCMap(strings.NewReader(p))
+			type1.Read(strings.NewReader(p))
+		}
 		d2, err2 := postscript.ReadCMap(bytes.NewReader(c.Data))
 		if (err1 == nil) != (err2 == nil) {
 			return fmt.Sprintf("reading the same CMap file gives err=%v, then err=%v", err1, err2)
@@ -281,7 +297,7 @@ func genCMapFile(t *rapid.T) []byte {
 func TestP1Repeat(t *testing.T) {
 	rec := ev.New("C17", "repeat")
 	defer rec.Finish(t)
-	rec.Rule(fmt.Sprintf("values built to expose iteration order - fonts with up to 60 glyphs from the C09 generator plus glyphs whose names differ from another's in letter case only, metrics with 2-40 glyphs (names differing in case or leading zeros only) and 0-6 ligatures per glyph plus kerning, CMap files with 2-5 CMaps whose names are adjacent or equal and blocks with duplicate source codes (ties in the sort). History: each writer (4 Type 1 formats, WritePDF with its two lengths, Metrics.Write, both GlyphList methods) is invoked %d times on the same value and every output must be byte-identical to the first; each reader (type1.Read on all four formats, afm.Read, ReadCMap) is invoked repeatedly on the same bytes and must give deep-equal results (for CMaps: same CMap chosen, same tables in the same order). Non-trivial: the value has >= 1 map with >= 2 entries on an output path (>= 2 glyphs, >= 2 ligatures on a glyph, >= 2 CMaps); distinct by value. Go randomises map iteration per range statement: %d repeats of a two-entry map miss an order dependence with probability 2^-%d.", repeats, repeats, repeats-1))
+	rec.Rule(fmt.Sprintf("values built to expose iteration order - fonts with up to 60 glyphs from the C09 generator plus glyphs whose names differ from another's in letter case only, metrics with 2-40 glyphs (names differing in case or leading zeros only) and 0-6 ligatures per glyph plus kerning, CMap files with 2-5 CMaps whose names are adjacent or equal and blocks with duplicate source codes (ties in the sort). History: each writer (4 Type 1 formats, WritePDF with its two lengths, Metrics.Write, both GlyphList methods) is invoked %d times on the same value and every output must be byte-identical to the first; each reader (type1.Read on all four formats, afm.Read, ReadCMap - half of the CMap cases with other inputs read in between: CMap files that define straight into the procedure set, redefine its operators or stop half-way, and programs that store into shared-looking objects) is invoked repeatedly on the same bytes and must give deep-equal results (for CMaps: same CMap chosen, same tables in the same order). Non-trivial: the value has >= 1 map with >= 2 entries on an output path (>= 2 glyphs, >= 2 ligatures on a glyph, >= 2 CMaps); distinct by value. Go randomises map iteration per range statement: %d repeats of a two-entry map miss an order dependence with probability 2^-%d.", repeats, repeats, repeats-1))
 	ev.SetupRapid(3000, 96000)
 	rapid.Check(t, func(t *rapid.T) {
 		switch rapid.IntRange(0, 2).Draw(t, "kind") {
@@ -323,6 +339,12 @@ func TestP1Repeat(t *testing.T) {
 			}
 		default:
 			c := &cmapCase{Data: genCMapFile(t)}
+			if rapid.Bool().Draw(t, "cmaphistory") {
+				rec.Class("cmap-with-other-inputs-between")
+				for i := rapid.IntRange(1, 3).Draw(t, "nbetween"); i > 0; i-- {
+					c.Between = append(c.Between, rapid.SampledFrom(cmapPerturbations).Draw(t, "between"))
+				}
+			}
 			rec.Eval(1)
 			rec.Class("cmap")
 			rec.NonTrivialHash(ev.Hash(string(c.Data)))
